@@ -19,7 +19,9 @@ LEVEL_TEXT = ('Kernel-checked theorems (Props/C11.v) about the Gallina model of 
               'the weights sum to one; for the model of rs_classical_interpolation_pass2 (standard and modified) coarse points get '
               'identity rows and fine points one weight per strongly connected coarse point, and for the standard variant the weights '
               'of a zero-row-sum row sum to one whenever every strong F neighbour has a nonzero row sum over the interpolatory set and '
-              'the 1e-15 filter drops no nonzero entry.  The Gallina models of direct interpolation, remove_strong_FF_connections and '
+              'the 1e-15 filter drops no nonzero entry; the model of one_point_interpolation gives coarse points an identity row and a fine '
+              'point either nothing (no strongly connected coarse point) or one entry on a strongly connected coarse point of maximal '
+              '|strength| (any ordered field).  The Gallina models of direct interpolation, one-point interpolation, remove_strong_FF_connections and '
               'classical interpolation (standard and modified), evaluated at PrimFloat, must reproduce bit-for-bit what the '
               'rebuilt working-tree kernels return on random M-matrices / weakly diagonally dominant matrices with arbitrary '
               '(not only library-produced) splittings; an oracle checks the defining equations on the public routines: '
@@ -143,9 +145,20 @@ def run(ctx):
                 meta.append((dict(base, kernel='classical', modified=modified), [Pp.tolist(), Pj.tolist(), Px.tolist()]))
                 ctx.case(('classical', modified, it), nontriv)
                 ctx.count('kernel:classical%s' % ('-modified' if modified else ''))
+        # one_point_interpolation kernel: every output slot pre-filled with NaN / -7 so that a slot the kernel does
+        # not write is seen (the public routine hands it np.empty buffers)
+        Pp1 = np.full(n + 1, -7, dtype=I32)
+        Pj1 = np.full(n, -7, dtype=I32)
+        Px1 = np.full(n, np.nan)
+        amg_core.one_point_interpolation(Pp1, Pj1, Px1, S.indptr, S.indices, S.data, spl)
+        nn1 = int(Pp1[-1]) if 0 <= Pp1[-1] <= n else n
+        cases.append(term(4, n, A, S, spl, Pp1, Pj1[:nn1], Px1[:nn1]))
+        meta.append((dict(base, kernel='one_point'), [Pp1.tolist(), Pj1.tolist(), Px1.tolist()]))
+        ctx.case(('one_point', it), nontriv)
+        ctx.count('kernel:one_point')
         # ---- oracle on the public routines
         oracle(ctx, interp, Ad, A, theta, norm, spl, sym, rowsum0, base)
-    ctx.corr_relations = ['amg_core.rs_direct_interpolation_pass1/2, remove_strong_FF_connections, rs_classical_interpolation_pass1/2 '
+    ctx.corr_relations = ['amg_core.rs_direct_interpolation_pass1/2, remove_strong_FF_connections, rs_classical_interpolation_pass1/2, one_point_interpolation '
                           '== Interp.* at PrimFloat (bit-exact)']
     bad, errs = cq.run_cases('c11', HEADER, 'caseT', 'chk', cases, shard=60)
     for e in errs:
@@ -256,6 +269,32 @@ def oracle(ctx, interp, Ad, A, theta, norm, spl, sym, rowsum0, base):
             allowed = {int(cidx[j]) for j in strong[i] if spl[j] == 1}
             if len(cols) > 1 or (len(cols) == 1 and int(cols[0]) not in allowed) or (len(cols) == 0 and allowed):
                 ctx.fail('one_point/F-row', 'row %d -> %s, strong C neighbours %s' % (i, list(cols), sorted(allowed)), case)
+    # values: by_val=False gives ones everywhere; by_val=True gives 1 on C rows and -a_ij of the strongest strongly
+    # connected C point (largest |a_ij|) on F rows
+    for by_val in (False, True):
+        Pv = sp.csr_array(interp.one_point_interpolation(A, C if not by_val else A, spl, by_val=by_val)) if by_val else P1
+        Pd = Pv.toarray()
+        for i in range(n):
+            nzc = Pv.indices[Pv.indptr[i]:Pv.indptr[i + 1]]
+            vals = Pv.data[Pv.indptr[i]:Pv.indptr[i + 1]]
+            if spl[i] == 1:
+                if list(nzc) != [cidx[i]] or not (vals[0] == 1):
+                    ctx.fail('one_point/C-row-value', 'by_val=%s row %d -> cols %s values %s (expected a single 1)' % (by_val, i, list(nzc), list(vals)),
+                             dict(case, by_val=by_val))
+                    break
+            elif len(nzc) == 1:
+                if not by_val and vals[0] != 1:
+                    ctx.fail('one_point/F-row-value', 'by_val=False row %d value %r' % (i, vals[0]), dict(case, by_val=by_val))
+                    break
+                if by_val:
+                    cand = [j for j in range(n) if spl[j] == 1 and j != i and Ad[i, j] != 0]
+                    best = max(abs(Ad[i, j]) for j in cand) if cand else None
+                    j = int(np.flatnonzero(spl == 1)[nzc[0]]) if cand else -1
+                    if not cand or abs(Ad[i, j]) != best or vals[0] != -Ad[i, j]:
+                        ctx.fail('one_point/F-row-value', 'by_val=True row %d: entry (%r, %r), strongest C coupling %r' % (i, int(nzc[0]), vals[0], best),
+                                 dict(case, by_val=by_val))
+                        break
+        ctx.count('oracle:one_point-values')
     Pi = sp.csr_array(interp.injection_interpolation(A, spl))
     if Pi.shape != (n, int(spl.sum())) or not np.array_equal(Pi.toarray(), np.eye(n)[:, spl == 1]):
         ctx.fail('injection/not-injection', '', dict(base, routine='injection'))
